@@ -375,7 +375,7 @@ impl Circle2 {
         }
 
         let r_diff = (self.ball.radius - other.ball.radius).abs();
-        if d < r_diff - TOL {
+        if d <= r_diff - TOL {
             // One circle lies strictly inside the other
             return result;
         }
